@@ -453,6 +453,26 @@ struct alignas(16) TC16A {
 #endif
 };
 
+// alignment beyond alignof(std::max_align_t) (32 bytes, 32-byte aligned): only for containers that keep their elements inside the object
+// (the malloc based allocators do not serve such types); the objects under test are placed on alternating residues modulo 64
+struct alignas(32) TC32A {
+  int32_t key;
+  uint32_t pay;
+  TC32A() = default;
+  TC32A(int k, unsigned p) : key(k), pay(p) {}
+  TC32A(const Proto &p) : key(p.key), pay(p.pay) {}
+  explicit TC32A(const TC32A *p) : key(p->key), pay(p->pay) {}
+  bool operator==(const TC32A &o) const { return key == o.key; }
+  bool operator!=(const TC32A &o) const { return key != o.key; }
+  bool operator<(const TC32A &o) const { return key < o.key; }
+  bool operator>(const TC32A &o) const { return key > o.key; }
+  bool operator<=(const TC32A &o) const { return key <= o.key; }
+  bool operator>=(const TC32A &o) const { return key >= o.key; }
+#if __cplusplus >= 202002L
+  std::strong_ordering operator<=>(const TC32A &o) const { return key <=> o.key; }
+#endif
+};
+
 // narrow keys without payload (1 and 2 bytes): code that depends on sizeof(T) (thresholds counted in elements per cache line, ...)
 struct K1 {
   uint8_t k;
@@ -538,6 +558,14 @@ struct EI<TC16A> {
   typedef TC16A E;
   static const bool kTracked = false, kRelocatable = true, kCopyable = true;
   static const char *name() { return "TC16A"; }
+  static Val val(const E &e) { return Val(e.key, e.pay); }
+  static Val norm(Val v) { return v; }
+};
+template <>
+struct EI<TC32A> {
+  typedef TC32A E;
+  static const bool kTracked = false, kRelocatable = true, kCopyable = true;
+  static const char *name() { return "TC32A"; }
   static Val val(const E &e) { return Val(e.key, e.pay); }
   static Val norm(Val v) { return v; }
 };
